@@ -180,3 +180,41 @@ Proof.
 Qed.
 Print Assumptions C03_groups_block_nonvacuous.
 End GroupsKernel.
+
+(* ====================================================================================================
+   Kernel IV: user constraints and variables, switching the solver interface, Model.merge
+   (coq/theories/Extras; contexts at specification level, Extras/Ctx.v; correspondence: harness/extras.py run_ctx,
+   Extras/Check.v codes 4, 5).
+   ==================================================================================================== *)
+From Cobra.Extras Require Model Inv Proofs Ctx Examples.
+Module ExtrasKernel.
+Import Cobra.Extras.Model Cobra.Extras.Inv Cobra.Extras.Proofs Cobra.Extras.Ctx Cobra.Extras.Examples.
+
+Theorem C03_extras_step : forall c o, CInv c -> cop_ok c o -> CInv (fst (cstep vfix c o)).
+Proof. exact cstep_CInv. Qed.
+Print Assumptions C03_extras_step.
+
+Theorem C03_extras_history : forall ops s, Inv s -> cok_run (mkC s []) ops -> Inv (cur (crun vfix ops (mkC s []))).
+Proof.
+  intros ops s W H. apply (crun_CInv ops (mkC s [])); [|exact H]. split; [exact W|constructor].
+Qed.
+Print Assumptions C03_extras_history.
+
+(* a well-bracketed block ends in the very state saved at its entry (the specification the implementation is compared
+   with: user items, solver interface, merged reactions -- everything) *)
+Theorem C03_extras_block_restores : forall v ops c, balanced 0 ops = true -> crun v (Enter :: ops ++ [Exit]) c = c.
+Proof. exact block_restores. Qed.
+Print Assumptions C03_extras_block_restores.
+
+(* non-vacuity: nested blocks that remove a reaction two user constraints mention, merge, switch the interface, remove a
+   user constraint; afterwards the state is the one at the entry *)
+Example C03_extras_block_nonvacuous :
+  (crun vfix (Enter :: inner ++ [Exit]) c0 = c0 /\
+   (* ... and something did happen inside *)
+   rin (cur (crun vfix (Enter :: inner) c0)) 1 = false /\ rin (cur c0) 1 = true /\
+   odir (cur (crun vfix (Enter :: inner) c0)) = true /\ odir (cur c0) = false /\
+   length (saved (crun vfix (Enter :: inner) c0)) = 1%nat) /\
+  CInv (crun vfix (Enter :: inner ++ [Exit]) c0).
+Proof. split; [exact block_nonvacuous|exact block_CInv]. Qed.
+Print Assumptions C03_extras_block_nonvacuous.
+End ExtrasKernel.
